@@ -57,7 +57,11 @@ def render(t, seps=None):
         s = '['
         for i, p in enumerate(parts):
             if i:
-                s += sep[i % len(sep)]
+                sp = sep[i % len(sep)]
+                if sp == 'ADJ':
+                    # nothing at all between a closing bracket and what follows it (a bracket ends its token); a blank elsewhere
+                    sp = '' if parts[i - 1].endswith(']') else ' '
+                s += sp
             s += p
         return s + ']'
     raise ValueError(k)
